@@ -3,7 +3,7 @@
    compared with the exported result (tags 51, 52, 56); the property statements are evaluated on the
    implementation's own result (tags 53..58); 251 = the argument does not list the etas in collection order. *)
 From Coq Require Import QArith Qabs List Bool PArith Arith.
-From PV Require Import Base.PyData Base.Expr C11.Model C11.NumModel C11.JdModel.
+From PV Require Import Base.PyData Base.Expr C11.Model C11.NumModel C11.JdModel C11.VarParams.
 Import ListNotations.
 Local Open Scope nat_scope.
 
@@ -20,7 +20,8 @@ Record jcase := mkJCase {
   j_psd : list (list (list Q) * bool);           (* is_positive_semidefinite as computed *)
   j_rep : list (list (list Q) * list (list Q));  (* nearest_positive_semidefinite as computed *)
   j_small : Q;                                    (* the float 0.0001 *)
-  j_internal : bool                               (* the call ended in an IndexError (internal error) *)
+  j_internal : bool;                              (* the call ended in an IndexError (internal error) *)
+  j_vp : option (list id)                         (* rvs.variance_parameters before the call (None = raised) *)
 }.
 
 Fixpoint jall2 {A B} (f : A -> B -> bool) (a : list A) (b : list B) : bool :=
@@ -50,7 +51,21 @@ Fixpoint jielookup (t : list (id * id * list (list Q))) (a b : id) : option (lis
   | (x, y, M) :: tl => if Pos.eqb x a && Pos.eqb y b then Some M else jielookup tl a b
   end.
 
+(* RandomVariables.variance_parameters: model against implementation (tag 70) and its statement on the
+   implementation's own answer (tag 71: no repetition, exactly the variance symbols of the named variables) *)
+Definition check_vp (c : jcase) : list nat :=
+  let r := j_r c in
+  match variance_parameters r, j_vp c with
+  | Ok l, Some l' =>
+      jtag (list_eqb Pos.eqb l l') 70 ++
+      jtag (nodupb l' &&
+            setp_eqb l' (flat_map (fun x => match variance sym None r x with Some (Some q) => [q] | _ => [] end) (names r))) 71
+  | Err _, None => []
+  | _, _ => [70]
+  end.
+
 Definition jverdict (c : jcase) : list nat :=
+  check_vp c ++
   let r := j_r c in let p := j_p c in
   let sq := jqlookup (j_sqrt c) in
   let is_psd := fun M => match jtlookup (j_psd c) M with Some b => b | None => true end in
